@@ -1479,7 +1479,8 @@ def shapes_box_relation(shapes):
 
 
 def tile_cov_index(cb, layer, q_srs, q_bbox):
-    """bounds-key -> list of geometry ids, for the coverages a tile request of `layer` can be limited to:
+    """key -> list of candidate lists of geometry ids (several when the coverages are geometrically equal, e.g. the
+    intersection with a geometry that contains the other one), for the coverages a tile request of `layer` can be limited to:
     the layer's own geometry, the global one, and their intersection"""
     from mapproxy.util.coverage import load_limited_to
     idx = {}
@@ -1492,12 +1493,12 @@ def tile_cov_index(cb, layer, q_srs, q_bbox):
         if g is not None:
             try:
                 covs[g] = load_limited_to(geom_limited_to(cb['geoms'][str(g)], q_srs, q_bbox, cb))
-                idx[geom_key(covs[g])] = [g]
+                idx.setdefault(geom_key(covs[g]), []).append([g])
             except Exception:  # noqa
                 pass
     if own in covs and glob in covs:
         geom = covs[own].geom.intersection(covs[glob].transform_to(covs[own].srs).geom)
-        idx[geom_key_of(covs[own].srs, geom)] = [own, glob]
+        idx.setdefault(geom_key_of(covs[own].srs, geom), []).append([own, glob])
         try:
             # the same intersection built in the SRS of the grid (helper called with srs=grid.srs)
             from mapproxy.srs import SRS
@@ -1507,7 +1508,9 @@ def tile_cov_index(cb, layer, q_srs, q_bbox):
             g2 = covs[own].transform_to(gs).geom.intersection(covs[glob].transform_to(gs).geom)
             polys = flatten_to_polygons(g2)
             g2 = polys[0] if len(polys) == 1 else shapely.geometry.MultiPolygon(polys)
-            idx.setdefault(geom_key_of(gs, g2), [own, glob])
+            k2 = geom_key_of(gs, g2)
+            if [own, glob] not in idx.get(k2, []):
+                idx.setdefault(k2, []).append([own, glob])
         except Exception:  # noqa
             pass
     return idx
@@ -1561,6 +1564,7 @@ def handle_tile(ctx, cfg, req, cb, resp, status, rec, up_map, up_fi, names, exte
     cont = sets_lit([list(gs) for gs, v in rel.items() if v[0]])
     inter = sets_lit([list(gs) for gs, v in rel.items() if v[1]])
     img = decode(resp) if (resp is not None and status == 200) else None
+    alts = []
     # observed outcome
     if status in (401, 403):
         obs = 'TO_%d' % status
@@ -1581,7 +1585,8 @@ def handle_tile(ctx, cfg, req, cb, resp, status, rec, up_map, up_fi, names, exte
         else:
             q_srs, q_bbox = extents[0] if extents and extents[0] else (None, None)
             gidx = tile_cov_index(cb, req['layer'], q_srs.replace('900913', '3857'), q_bbox) if q_srs else {}
-            gs_obs = gidx.get(geom_key(cov), [-1])
+            alts = gidx.get(geom_key(cov), [[-1]])
+            gs_obs = alts[0]
             if resp.content_type == 'image/png' and alphas[0] == 0 and alphas[1] == 0:
                 obs = 'TO_empty'
             elif alphas[0] == 0 and alphas[1] == 255:
@@ -1613,8 +1618,11 @@ def handle_tile(ctx, cfg, req, cb, resp, status, rec, up_map, up_fi, names, exte
                         out['tpx_terms'].append('(%s, %s, %s)' % (px_lit(col + (255,)), blit(c == 'out'), px_lit(got)))
                         out['tpx_descr'].append({'stream': 'app', 'case': {'config': cfg, 'requests': [req]}, 'pixel': [x, y],
                                                  'observed': list(got)})
-    out['tile_terms'].append('(%s, %s, %s, %s, (%s), %s)' % (zlit(lname), cb_lit(cb, names), cont, inter, obs,
-                                                           olit(None if (cache['store'] or status != 200) else bool(up_map), blit)))
+    # alts: the sets of geometries whose coverage is geometrically equal to the observed one (the coverage object is
+    # recognised by its geometry only, e.g. own /\ global = global when the own geometry contains the global one)
+    out['tile_terms'].append('(%s, %s, %s, %s, (%s), %s, %s)' % (zlit(lname), cb_lit(cb, names), cont, inter, obs,
+                                                               olit(None if (cache['store'] or status != 200) else bool(up_map), blit),
+                                                               llit(alts, llit)))
     out['tile_descr'].append({'stream': 'app', 'case': {'config': cfg, 'requests': [req]}, 'status': status,
                               'observed': obs, 'upstream': up_map,
                               'relations(contains,intersects,robust)': dict((repr(k), v) for k, v in rel.items())})
@@ -1648,10 +1656,10 @@ FI_CHECK = ("fun c => let '(tree, ql, ls, cb, pin, obs) := c in "
             "| W_401, FI_401 | W_403, FI_403 => true "
             "| W_notqueryable, FI_notqueryable | W_unknown, FI_notqueryable => true "
             "| _, _ => false end")
-TILE_TYPE = 'Z * option cbres * list (list Z) * list (list Z) * tile_out * option bool'
-TILE_CHECK = ("fun c => let '(n, cb, cont, inter, obs, loaded) := c in "
+TILE_TYPE = 'Z * option cbres * list (list Z) * list (list Z) * tile_out * option bool * list (list Z)'
+TILE_CHECK = ("fun c => let '(n, cb, cont, inter, obs, loaded, alts) := c in "
               "let m := tile_render n cb (inll cont) (inll inter) in "
-              "tile_out_eqb m obs && match loaded with Some b => Bool.eqb (tile_loads m) b | None => true end")
+              "(tile_out_eqb m obs || match m, obs with TO_masked g, TO_masked _ => inll alts g | _, _ => false end) && match loaded with Some b => Bool.eqb (tile_loads m) b | None => true end")
 TFI_TYPE = 'Z * list Z * option cbres * list (list Z) * fi_out'
 TFI_CHECK = ("fun c => let '(n, infos, cb, pin, obs) := c in fi_out_eqb (wmts_featureinfo n infos cb (inll pin)) obs")
 PX_TYPE = 'ropts * list lmeta * column * option bool * px * Z'
